@@ -271,30 +271,45 @@ func CheckC15(l *Lab, verifDir string) int {
 	}
 	// user tokens switched off (no keys configured): /tokeninfo has no key any token could be made
 	// under, in particular not an all-zero or empty one
-	if g0, err := l.StartGateway(&GWConfig{Tls: "disable", Auth: []string{"openid"}, IdP: idp, Hosts: []string{"127.0.0.1:3389"}, HostSelection: "roundrobin", PAASigningKey: StrP(Key32a)}); err != nil {
-		rep.Inconclusive("start without user tokens: " + err.Error())
-	} else {
-		in0 := &c15Inst{gw: g0}
-		now := time.Now().Unix()
-		pl, _ := json.Marshal(map[string]any{"iss": "rdpgw", "sub": "forged-user", "exp": now + 3600})
-		for name, tok := range map[string]string{
-			"encrypt-only under 32 zero bytes":       EncryptJWE(make([]byte, 32), map[string]any{"cty": "JWT"}, pl, true, nil),
-			"encrypt-only under 32 zero characters":  EncryptJWE([]byte(strings.Repeat("0", 32)), map[string]any{"cty": "JWT"}, pl, true, nil),
-			"encrypt-only under the PAA signing key": EncryptJWE([]byte(Key32a), map[string]any{"cty": "JWT"}, pl, true, nil),
-			"A256GCM under 32 zero bytes":            EncryptJWEGCM(make([]byte, 32), "A256GCM", pl),
-		} {
-			r, err := in0.tokeninfo("GET", "?access_token="+url.QueryEscape(tok))
-			if err != nil {
-				rep.Inconclusive("tokeninfo: " + err.Error())
-				continue
-			}
-			rep.Eval(HashStr("no-user-token-keys", name, r.Status))
-			rep.Count("status/"+fmt.Sprint(r.Status), 1)
-			if r.Status == 200 {
-				rep.Violate("C15/forged-token-accepted/no-keys-configured", fmt.Sprintf("user tokens are not configured; %s: status 200 body %s", name, trunc(string(r.Body), 120)), nil)
-			}
+	for _, leftover := range []bool{false, true} {
+		cfg0 := &GWConfig{Tls: "disable", Auth: []string{"openid"}, IdP: idp, Hosts: []string{"127.0.0.1:3389"}, HostSelection: "roundrobin", PAASigningKey: StrP(Key32a)}
+		if leftover {
+			// user tokens off, but a signing key is still in the file
+			cfg0.UserSigningKey = StrP(c15SigKey)
 		}
-		g0.Stop()
+		if g0, err := l.StartGateway(cfg0); err != nil {
+			rep.Inconclusive("start without user tokens: " + err.Error())
+		} else {
+			in0 := &c15Inst{gw: g0}
+			now := time.Now().Unix()
+			pl, _ := json.Marshal(map[string]any{"iss": "rdpgw", "sub": "forged-user", "exp": now + 3600})
+			for name, tok := range map[string]string{
+				"encrypt-only under 32 zero bytes":       EncryptJWE(make([]byte, 32), map[string]any{"cty": "JWT"}, pl, true, nil),
+				"encrypt-only under 32 zero characters":  EncryptJWE([]byte(strings.Repeat("0", 32)), map[string]any{"cty": "JWT"}, pl, true, nil),
+				"encrypt-only under the PAA signing key": EncryptJWE([]byte(Key32a), map[string]any{"cty": "JWT"}, pl, true, nil),
+				"A256GCM under 32 zero bytes":            EncryptJWEGCM(make([]byte, 32), "A256GCM", pl),
+			} {
+				r, err := in0.tokeninfo("GET", "?access_token="+url.QueryEscape(tok))
+				if err != nil {
+					rep.Inconclusive("tokeninfo: " + err.Error())
+					continue
+				}
+				rep.Eval(HashStr("no-user-token-keys", name, r.Status))
+				rep.Count("status/"+fmt.Sprint(r.Status), 1)
+				if r.Status == 200 {
+					rep.Violate("C15/forged-token-accepted/no-keys-configured", fmt.Sprintf("user tokens are not configured; %s: status 200 body %s", name, trunc(string(r.Body), 120)), nil)
+				}
+			}
+			for name, tok := range map[string]string{"junk": "junk", "a.b.c.d.e": "a.b.c.d.e", "plain signed JWT under the leftover signing key": SignHS("HS256", "HS256", []byte(c15SigKey), nil, map[string]any{"iss": "rdpgw", "sub": "forged-user", "exp": time.Now().Unix() + 3600})} {
+				if r, err := in0.tokeninfo("GET", "?access_token="+url.QueryEscape(tok)); err == nil {
+					rep.Eval(HashStr("no-user-token-keys", leftover, name, r.Status))
+					if r.Status == 200 {
+						rep.Violate("C15/forged-token-accepted/no-keys-configured", fmt.Sprintf("user tokens are not configured (leftover signing key: %v); %s: status 200 body %s", leftover, name, trunc(string(r.Body), 120)), nil)
+					}
+				}
+			}
+			g0.Stop()
+		}
 	}
 	// mutants of a minted token
 	alphabet := "ABCDEFGHIJKLMNOPQRSTUVWXYZabcdefghijklmnopqrstuvwxyz0123456789-_"
